@@ -11,7 +11,9 @@ E4 == [x1 |-> Text(<<"a">>), x2 |-> Text(<<"b">>), x3 |-> Text(<<"a">>), x4 |-> 
 E5 == [x1 |-> Bool(TRUE), x2 |-> IntV(1), x3 |-> Bool(FALSE), x4 |-> IntV(0), x5 |-> IntV(4)]
 \* texts that differ in case only, next to a number and a truth value
 E6 == [x1 |-> Text(<<"a", "B">>), x2 |-> Text(<<"A", "b">>), x3 |-> IntV(1), x4 |-> Bool(TRUE), x5 |-> Text(<<"a">>)]
-McEnvs == <<E1, E2, E3, E4, E5, E6>>
+\* texts that differ in their whitespace only (a run of two blanks, one blank, a tab, blanks at the ends): a text literal is kept character by character
+E7 == [x1 |-> Text(<<"a", " ", " ", "b">>), x2 |-> Text(<<"a", " ", "b">>), x3 |-> Text(<<"a", "\t", "b">>), x4 |-> Text(<<" ", "a", " ">>), x5 |-> IntV(2)]
+McEnvs == <<E1, E2, E3, E4, E5, E6, E7>>
 Dec3 == {"plain", "neg", "pct"}
 Dec1 == {"plain"}
 Dec5 == {"plain", "neg", "pct", "negpct", "pos"}
